@@ -378,9 +378,17 @@ fn decorate(ty: &Ty, val: &DV, script: &[u16], density: u16) -> Vec<(usize, Vec<
             "str" | "str-multiline" => match r % 4 {
                 0 => ws.push(W::Lit),
                 1 => ws.push(W::Fold),
+                // (a flow hint around a value that is no collection must not outlive that value)
+                2 if r % 8 == 2 => ws.push(W::FlowSeq),
                 _ => {}
             },
-            _ => {}
+            // a flow hint around a value that is no collection (None, unit, a number ...): it
+            // has nothing to lay out and must not reach the next collection
+            _ => match r % 6 {
+                0 => ws.push(W::FlowSeq),
+                1 => ws.push(W::FlowMap),
+                _ => {}
+            },
         }
         if !ws.is_empty() {
             out.push((me, ws));
